@@ -5,6 +5,11 @@ V = os.path.dirname(os.path.dirname(os.path.abspath(__file__)))
 ALL = ["C%02d" % i for i in range(1, 20)]
 # property -> (families, level text, level note)
 CLAIMED = {
+ "C05": ("mutex", "Generated-schedule search over lock/try_lock programs of 2-5 mixed thread/coroutine lockers with generated cancellation of coroutine lockers; oracle = occupancy counter (never two holders, try_lock never succeeds while held), lost-update check on the protected counter, lock free and not poisoned at the end, exact deadlock detection for stranded waiters.", "5/C05"),
+ "C08": ("timed", "Generated-schedule search with virtual time and generated stall faults over every timed API (sleep, recv_timeout, Semphore/SyncFlag/Condvar wait_timeout, cqueue poll, Blocker::park, coroutine::park_timeout) and durations from 0 to hours, with an event actor placed before/at/after the deadline; oracle = never early (virtual clock), result kind consistent with the observed event, always returns (exact deadlock/livelock detection), promptness bound in stall-free cases.", "5/C08"),
+ "C10": ("sem", "Generated-schedule search over Semphore / SyncFlag programs (wait, wait_timeout, try_wait, post/fire, cancellation, stall faults); oracle = successes never exceed permits made available, value = init + posts - successes at quiescence, every wait returns when permits suffice (deadlock detector), SyncFlag latch semantics from logical call/return stamps.", "5/C10"),
+ "C11": ("condvar", "Generated-schedule search over (a) a ticket protocol on Mutex+Condvar with timed waiters that give up, cancellation and exactly sufficient grants, (b) Barrier over several generations, (c) WaitGroup; oracle = every waiter that must finish does (exact deadlock detection = lost notification), mutex held exclusively on return from wait, timed_out only after d, one leader per generation and no early release, wait() returns only after all other clones were dropped.", "5/C11"),
+ "C12": ("rwlock", "Generated-schedule search over read/write/try_read/try_write/panic-while-writing programs with guards recovered from PoisonError and cancellation; oracle = reader/writer occupancy counter, no guard drop panics, try_write succeeds after all guards are dropped, poison flag consistent, every blocked locker returns (deadlock detector).", "5/C12"),
  "C06": ("chan", "Generated-schedule search: every case is a generated channel program (mpsc/spsc/mpmc, thread and coroutine endpoints) plus a generated schedule, executed on the real runtime under the deterministic baton scheduler in a fresh process; oracle = exactly-once ledger, per-sender order, FIFO-linearizability clauses for the single-consumer kinds, exact deadlock detection for 'a blocked recv is woken by the send'. It samples schedules, it does not enumerate them.", "5/C06"),
  "C07": ("chan", "Same engine, generator biased to early drops of senders/receivers and several mpmc receivers; oracle = every receive loop ends with Disconnected after draining, a send after the last receiver drop fails and returns its value, values dropped exactly once, exact deadlock detection for 'never blocks forever'.", "5/C07"),
 }
